@@ -1,5 +1,5 @@
 (* C08 — observe server. Only statements here; every proof is [exact <lemma of Proofs/C08*.v>]. *)
-From Verif Require Import Lib.Py Lib.Tactics Model.C08 Proofs.C08.
+From Verif Require Import Lib.Py Lib.Tactics Model.C08 Proofs.C08 Proofs.C08Silent Proofs.C08Ends Proofs.C08Observe.
 Open Scope Z_scope.
 
 (* The resource's bookkeeping, for every history of requests, observer reactions, losses, timers, triggers,
@@ -15,3 +15,109 @@ Theorem C08_cancel_exactly_once_count_restored : forall mid0 es, let s := run (i
   counts_ok (s_hist s) /\ Z.of_nat (length (s_observers s)) = balance (s_hist s).
 Proof. exact bookkeeping_lemma. Qed.
 Print Assumptions C08_cancel_exactly_once_count_restored.
+
+(* ---- once ended: silence.  For a registration g that has ended (it is not in incoming_requests and its number has been
+   issued), one event of any kind: it stays ended; nothing is handed to the message layer for it; the only datagrams
+   transmitted for the first time for it are ones that were waiting in the per-endpoint backlog when the event began; and its
+   share of the backlog does not grow. *)
+Theorem C08_silent_after_end_step : forall s e g, 0 <= g -> okreg g s -> Q (queued_for g s) g s (step s e).
+Proof. exact silent_step. Qed.
+Print Assumptions C08_silent_after_end_step.
+(* over every continuation of the history *)
+Theorem C08_silent_after_end : forall es s g, 0 <= g -> okreg g s ->
+  okreg g (run s es) /\
+  (exists l, s_prod (run s es) = l ++ s_prod s /\ Forall (fun m => m_gid m <> g) l) /\
+  (exists h, s_hist (run s es) = h ++ s_hist s /\ forall m, In (OSend m false) h -> m_gid m = g -> queued_for g s m).
+Proof. exact silent_run. Qed.
+Print Assumptions C08_silent_after_end.
+(* the unconditional statement "no datagram for it is ever sent again" is false of the faithful model (finding F16) *)
+Theorem C08_silent_on_wire_refuted :
+  let s1 := run (init 0) (firstn 3 f16_events) in let s2 := run (init 0) f16_events in
+  live 0 s1 /\ ~ live 0 s2 /\ count_cancel 0 (s_hist s2) = 1%nat /\
+  notif 0 (s_hist s1) = [(1, 0); (0, 1)] /\ notif 0 (s_hist s2) = [(1, 0); (0, 1); (1, 2)].
+Proof. exact silent_on_wire_refuted. Qed.
+Print Assumptions C08_silent_on_wire_refuted.
+
+(* ---- what ends a registration (together with the first theorem: callback exactly once, count restored) *)
+Theorem C08_ends_on_same_token_request : forall s r con mid tok obs g0,
+  find_key s r tok = Some g0 -> s_down s = false -> in_recent s r mid = None -> 0 <= g_gid g0 < s_gidctr s ->
+  ~ live (g_gid g0) (step s (ERequest r con mid tok obs)).
+Proof. exact ends_on_same_token. Qed.
+Print Assumptions C08_ends_on_same_token_request.
+(* Reset: case split — a notification that has an exchange entry, i.e. a confirmable one ... *)
+Theorem C08_ends_on_reset_of_confirmable : forall s r mid x,
+  find (fun x => (x_remote x =? r) && (x_mid x =? mid)) (s_exch s) = Some x -> s_down s = false -> 0 <= x_gid x < s_gidctr s ->
+  ~ live (x_gid x) (step s (ERst r mid)).
+Proof. exact ends_on_rst_con. Qed.
+Print Assumptions C08_ends_on_reset_of_confirmable.
+(* ... while for a non-confirmable notification the statement is false of the faithful model (finding F15) *)
+Theorem C08_ends_on_reset_of_nonconfirmable_refuted :
+  let s := run (init 0) f15_events in
+  live 0 s /\ s_observers s = [0] /\ count_cancel 0 (s_hist s) = 0%nat /\ notif 0 (s_hist s) = [(0, 0); (1, 1); (2, 2)].
+Proof. exact rst_on_non_refuted. Qed.
+Print Assumptions C08_ends_on_reset_of_nonconfirmable_refuted.
+Theorem C08_ends_on_transport_error : forall s r g0,
+  In g0 (s_regs s) -> g_remote g0 = r -> s_down s = false -> 0 <= g_gid g0 < s_gidctr s ->
+  ~ live (g_gid g0) (step s (ETransportError r)).
+Proof. exact ends_on_transport_error. Qed.
+Print Assumptions C08_ends_on_transport_error.
+Theorem C08_ends_on_notification_timeout : forall s m t g0,
+  In g0 (s_regs s) -> g_remote g0 = m_remote m -> 0 <= g_gid g0 < s_gidctr s ->
+  ~ live (g_gid g0) (flush_cancels (fire s (KRetrans m t MAX_RETRANSMIT))).
+Proof. exact ends_on_timeout. Qed.
+Print Assumptions C08_ends_on_notification_timeout.
+Theorem C08_ends_on_shutdown : forall s, s_down s = false -> s_regs (step s EShutdown) = [].
+Proof. exact ends_on_shutdown. Qed.
+Print Assumptions C08_ends_on_shutdown.
+Theorem C08_ends_on_unsuccessful_or_last : forall cont s g0 res,
+  0 <= g_gid g0 < s_gidctr s ->
+  match res with RResp code _ _ => g_late g0 || negb (successful code) = true | RRaise _ _ _ => True end ->
+  ~ live (g_gid g0) (after_response cont s g0 res).
+Proof. exact ends_on_final. Qed.
+Print Assumptions C08_ends_on_unsuccessful_or_last.
+Theorem C08_ends_on_unsuccessful_first_response : forall s g0 res,
+  match res with RResp code _ _ => successful code = false | RRaise _ _ _ => True end ->
+  ~ live (g_gid g0) (first_render_done s g0 res).
+Proof. exact ends_on_first_unsuccessful. Qed.
+Print Assumptions C08_ends_on_unsuccessful_first_response.
+
+(* ---- token and rising Observe numbers.  PARTIAL: proved for the render task's code (what one pass of the notification
+   loop hands to the message layer), not yet lifted to an invariant over whole histories on the wire ("the Observe values of the
+   datagrams of one registration, in order of first transmission, are strictly increasing").  Missing: the invariant
+   wire(g) ++ queued(g) = produced(g) of the FIFO backlog together with max Observe(g) <= next_observation_number for the
+   registration's local copy inside run_loop.  On histories this part of the property is checked by the oracle on the
+   implementation (signatures C08:observe-not-increasing, C08:wrong-token) and through the correspondence of complete traces. *)
+Theorem C08_notification_token_and_observe_partial : forall s g code o pk pv,
+  exists m, s_prod (emit s g code o pk pv) = m :: s_prod s /\
+            m_token m = g_token g /\ m_remote m = g_remote g /\ m_observe m = o /\ m_gid m = g_gid g /\ m_code m = code /\ m_pk m = pk /\ m_pv m = pv.
+Proof. exact emit_spec. Qed.
+Print Assumptions C08_notification_token_and_observe_partial.
+Theorem C08_first_response_observe_zero_partial : forall s g code pk pv, successful code = true ->
+  first_render_done s g (RResp code pk pv) = run_loop 2 (emit s (set_next g 0) code (Some 0) pk pv) (set_next g 0).
+Proof. exact first_response_observe_zero. Qed.
+Print Assumptions C08_first_response_observe_zero_partial.
+Theorem C08_observe_strictly_increasing_partial : forall cont s g code pk pv, g_late g = false -> successful code = true ->
+  after_response cont s g (RResp code pk pv) =
+  cont (emit s (set_next g (g_next g + 1)) code (Some (g_next g + 1)) pk pv) (set_next g (g_next g + 1)).
+Proof. exact notification_observe_next. Qed.
+Print Assumptions C08_observe_strictly_increasing_partial.
+(* ---- latest state: a burst of triggers before the task runs leaves exactly the last value in the (lossy) future, with a
+   sticky is_last.  PARTIAL in the same sense: "after the script has settled the newest notification on the wire is as new as
+   the last change" is checked by the oracle (C08:latest-not-sent), not proved over histories. *)
+Theorem C08_trigger_keeps_latest_partial : forall s gid g tv1 l1 tv2 l2, find_reg s gid = Some g ->
+  find_reg (trigger (trigger s gid tv1 l1) gid tv2 l2) gid = Some (set_trig g (Some tv2) (g_late g || l1 || l2)).
+Proof. exact trigger_overwrites. Qed.
+Print Assumptions C08_trigger_keeps_latest_partial.
+
+(* ---- non-vacuity: concrete reachable states satisfy the hypotheses *)
+Example C08_nonvacuous_reset :
+  let s := run (init 0) [ERequest 1 true 1 1 (Some 0); ETrigger [] [(TRender, false)]] in
+  exists x, find (fun x => (x_remote x =? 1) && (x_mid x =? 0)) (s_exch s) = Some x /\ s_down s = false /\ 0 <= x_gid x < s_gidctr s /\ live (x_gid x) s.
+Proof. vm_compute. eexists. repeat split; try reflexivity; try discriminate. left. reflexivity. Qed.
+Example C08_nonvacuous_ended :
+  let s := run (init 0) f16_events in okreg 0 s /\ exists m, queued_for 0 (run (init 0) (firstn 3 f16_events)) m.
+Proof. vm_compute. split; [split; [intros [] | reflexivity]|]. eexists. split; [left; reflexivity | reflexivity]. Qed.
+Example C08_rst_on_con_example :
+  let s := run (init 0) [ERequest 1 true 1 1 (Some 0); ETrigger [] [(TRender, false)]; ERst 1 0; ETrigger [] [(TRender, false)]] in
+  ~ live 0 s /\ s_observers s = [] /\ count_cancel 0 (s_hist s) = 1%nat /\ notif 0 (s_hist s) = [(1, 0); (0, 1)].
+Proof. exact rst_on_con_example. Qed.
